@@ -171,7 +171,7 @@ func blockRichFormula(t *rapid.T, g *fgen) *m.F {
 }
 
 func genC15(t *rapid.T) c15Case {
-	g := &fgen{t: t, maxAtoms: 5, maxDepth: 3, maxWidth: 3, budget: 8, quant: true, edges: 2, multiPC: rapid.Bool().Draw(t, "multiPC")}
+	g := &fgen{t: t, maxAtoms: 5, maxDepth: 3, maxWidth: 3, budget: 8, quant: true, edges: 2, multiPC: rapid.Bool().Draw(t, "multiPC"), constants: true}
 	p := &m.Profile{Name: pick(t, []string{"c15", "profile", "validations", "My Profile"}, "pname")}
 	nv := rapid.IntRange(1, 4).Draw(t, "nv")
 	names := rapid.Permutation(c15Names).Draw(t, "names")[:nv]
